@@ -63,15 +63,18 @@ def one(d, demo, checks):
 
 def main():
     args = sys.argv[1:]
-    demo = False; checks = ["all"]; dirs = []
+    demo = False; checks = ["all"]; dirs = []; jout = None
     i = 0
     while i < len(args):
         if args[i] == "--demo": demo = True
         elif args[i] == "--checks": i += 1; checks = args[i].split(",")
+        elif args[i] == "--json": i += 1; jout = args[i]
         else: dirs.append(args[i])
         i += 1
+    allres = []
     with cf.ThreadPoolExecutor(8) as ex:
         for r in ex.map(lambda d: one(d, demo, checks), dirs):
+            allres.append(r)
             tag = "CAUGHT" if r.get("fired") else ("NOAPPLY" if not r.get("applies") else "missed")
             dm = ""
             if "demo_pristine" in r:
@@ -80,4 +83,6 @@ def main():
             for pid, f in (r.get("fired") or {}).items():
                 print("         %s exit=%s %s" % (pid, f["exit"], (f["first"][0].strip()[:200] if f["first"] else "")))
             if not r.get("applies"): print("        ", r.get("apply_out"))
+    if jout:
+        json.dump(allres, open(jout, "w"), indent=1)
 main()
